@@ -14,6 +14,19 @@ def check(ctx, rep):
               "Range::difference denotes (union A) minus (union B), for every alternative of B; None iff empty")
 
 
+def flip_key(prog):
+    """Predicate::flip by signature: the method of Predicate with one argument (Predicate or &Predicate) that returns
+    a Predicate (the name may change: `flip`, `flipped`, …)"""
+    if prog.has_body("range::Predicate::flip"):
+        return "range::Predicate::flip"
+    cands = []
+    for k, b in prog.bodies.items():
+        if b.get("impl_self") == "range::Predicate" and b["def_kind"] == "AssocFn" and b["arg_count"] == 1 and not k.startswith("<"):
+            if prog.ty_str(b["locals"][0]) == "range::Predicate" and prog.ty_str(b["locals"][1]).lstrip("&") == "range::Predicate":
+                cands.append(k)
+    return cands[0] if len(cands) == 1 else None
+
+
 def t_flip(rep, prog, env):
     rep.rule("T-FLIP", 3, "Predicate::flip swaps Including/Excluding and keeps the version")
     from ..intervals import PRED, vtok
@@ -22,9 +35,9 @@ def t_flip(rep, prog, env):
         it = Interp(prog, Policy(), overrides=dict(LEVEL1))
         t = vtok("v", 0)
         p = Adt(PRED, env.P[pk], () if pk == "U" else (t,))
-        key = "range::Predicate::flip"
-        if not prog.has_body(key):
-            rep.inconc("T-FLIP: range::Predicate::flip not found")
+        key = flip_key(prog)
+        if key is None:
+            rep.inconc("T-FLIP: no method of Predicate taking a Predicate and returning a Predicate was found")
             return
         by_ref = prog.ty_str(prog.body(key)["locals"][1]).startswith("&")
         try:
@@ -50,7 +63,9 @@ def flip_witness(rep, prog, env):
     from ..intervals import PRED
     rule = "T-FLIP-WITNESS"
     rep.rule(rule, 0, "witness search for Predicate::flip on structured versions")
-    key = "range::Predicate::flip"
+    key = flip_key(prog)
+    if key is None:
+        return
     by_ref = prog.ty_str(prog.body(key)["locals"][1]).startswith("&")
     for v in minver.bound_universe(False):
         for pk, exp in (("I", "E"), ("E", "I")):
